@@ -569,3 +569,11 @@ U("ps.publish", src="units/ps_unit.c", harness="h_publish", enforce="m_mod_ps_pu
   replace=["m_ctx", "m_mod_is", "fetch_ms", "v_strlen", "v_strncmp", "tell_if", "tell_subscribers", "m_map_iterate"], props=["C02", "C15", "C18", "C04"], contract_files=SUBSC, native=False, timeout=300, min_obligations=20)
 U("ps.tell", src="units/ps_unit.c", harness="h_tell", enforce="m_mod_ps_tell", defines=["V_ROUTE_UNIT", "V_TELL_UNIT"], logctx="CORE",
   replace=["m_ctx", "m_mod_is", "fetch_ms", "tell_if", "tell_subscribers", "m_map_iterate"], props=["C02", "C14", "C18", "C04"], contract_files=SUBSC, native=False, timeout=300, min_obligations=20)
+
+PROPS["C02"]["level_text"] += (" Routing (tell_system_pubsub_msg, m_mod_ps_publish, m_mod_ps_tell with send_msg/tell_pubsub_msg inlined): a tell goes to exactly its recipient, a publish to the subscribers of "
+                               "exactly its topic once, a message without topic is one pass over every module of the sender's context; every message names its sender and carries the caller's payload pointer.")
+PROPS["C09"]["level_text"] += (" m_mod_ps_subscribe() (real ps.c + mem.c): one subscription per topic, a repeated subscription with the same flags is updated in place, with other flags replaced, and the "
+                               "table is never left keyed by released memory.")
+PROPS["C09"]["not_decided"] = ["that the BST behind the abstract keyed set is a set for > K nodes (C11 is bounded)", "m_mod_ps_unsubscribe", "m_mod_src_len for more than 2 sources per kind (bounded stand-in)"]
+PROPS["C19"]["level_text"] += (" tell_system_pubsub_msg(): every notification without recipient is exactly one publication to the subscribers of its topic whatever the number of RUNNING modules, flagged as a "
+                               "system message, naming the module it is about, without payload.")
